@@ -332,6 +332,32 @@ def behaviour_sample(seed, n, rdir):
     return len(pick), compared, bad
 
 
+def variant_sample(seed, exe, cdir, n, rdir):
+    """Auxiliary: the canonical output of sampled groups must be byte-identical across translator build
+    configurations (default / without pthreads / bundled getopt+dirname+basename+strdup)."""
+    from concurrent.futures import ThreadPoolExecutor
+    with ThreadPoolExecutor(max_workers=2) as ex:
+        others = list(ex.map(build, ["nopthread", "bundled"]))
+    bins = [("default", exe, []), ("nopthread", others[0], ["--no-t-option"]), ("bundled", others[1], [])]
+    bad = []
+    compared = 0
+    for i in range(n):
+        idx = i * 128 + 64
+        hashes = {}
+        for name, b, extra in bins:
+            r = subprocess.run([b, "--prop", "C09", "--corpus", cdir, "--seed", str(seed), "--start", str(idx), "--count", "1", "--canonical-dump", "--scratch", rdir] + extra,
+                               stdout=subprocess.PIPE, stderr=subprocess.PIPE, timeout=120)
+            m = re.search(r"CANON idx=\d+ exit=(\d+) outhash=(\w+) root=(\S+)", r.stdout.decode())
+            if m:
+                hashes[name] = (m.group(1), m.group(2))
+                shutil.rmtree(os.path.dirname(m.group(3)), ignore_errors=True)
+        if len(hashes) == 3:
+            compared += 1
+            if len(set(hashes.values())) != 1:
+                bad.append({"idx": idx, "hashes": hashes})
+    return compared, bad
+
+
 def check(prop, tier, seed, replay=None):
     t0 = time.time()
     nq, nt = PROPS[prop]
@@ -409,6 +435,12 @@ def check(prop, tier, seed, replay=None):
         aux = {"canonical_outputs_compiled": done, "compile_failures": len(bad)}
         nm, compared, bbad = behaviour_sample(seed, 6 if tier == "quick" else 80, rdir)
         aux.update({"behaviour_modules": nm, "behaviour_variant_comparisons": compared, "behaviour_failures": len(bbad), "behaviour_variants": [v for v, _ in VARIANT_OPTS]})
+        if tier == "thorough" or os.environ.get("VERIF_VARIANTS"):
+            vc, vbad = variant_sample(seed, exe, cdir, 24, rdir)
+            aux.update({"build_variant_groups_compared": vc, "build_variant_mismatches": len(vbad)})
+            for b in vbad:
+                by_sig.setdefault("C09/behaviour/build-variant-output-differs", []).append({"idx": b["idx"], "detail": "canonical output differs between translator build configurations: %s" % b["hashes"], "replay": None,
+                                  "behaviour": {"module": "group-%d" % b["idx"], "variant": "build-variants", "error": str(b["hashes"])}})
         for b in bbad:
             sig = "C09/behaviour/%s:%s" % (b["class"], b["variant"])
             by_sig.setdefault(sig, []).append({"idx": 0, "detail": "module tests/gen/%s.wasm variant %s: %s" % (b["module"], b["variant"], b["error"]), "replay": None, "behaviour": b})
